@@ -28,7 +28,6 @@ logging.disable(logging.CRITICAL)
 VERIF = Path(__file__).resolve().parent.parent
 REPO = Path(os.environ.get("VERIF_REPO", "/repo"))
 COQ = VERIF / "coq"
-MODELRUN = VERIF / "ocaml" / "modelrun"
 PYDEPS = VERIF / ".pydeps"
 
 # The implementation under test is always /repo/src (current working tree).
@@ -179,12 +178,13 @@ def _dec(t, i):
     raise ValueError("bad token " + x)
 
 
-def run_model(lines: list[str], chunk: int = 4000, procs: int = 8) -> list[str]:
-    """Run wire lines through the extracted model; returns one answer per line."""
+def run_model(runner: str, lines: list[str], chunk: int = 4000, procs: int = 8) -> list[str]:
+    """Run wire lines through the extracted model runner ocaml/modelrun_<runner>; one answer per line."""
     if not lines:
         return []
+    MODELRUN = VERIF / "ocaml" / f"modelrun_{runner}"
     if not MODELRUN.exists():
-        raise SystemExit("model runner not built: run setup.sh")
+        raise SystemExit(f"model runner {MODELRUN} not built: run setup.sh")
     chunks = [lines[i : i + chunk] for i in range(0, len(lines), chunk)]
     outs: list[list[str] | None] = [None] * len(chunks)
     running: list[tuple[int, subprocess.Popen, object]] = []
@@ -278,12 +278,10 @@ def coq_build(timeout=3000) -> tuple[bool, str]:
         ok = r.returncode == 0
         log = (r.stdout + r.stderr)[-4000:]
         if ok:
-            gen = VERIF / "ocaml" / "gen" / "model.ml"
-            if not MODELRUN.exists() or MODELRUN.stat().st_mtime < gen.stat().st_mtime:
-                b = subprocess.run(["sh", str(VERIF / "ocaml" / "build.sh")], capture_output=True,
-                                   text=True, timeout=600)
-                if b.returncode != 0:
-                    return False, "ocaml build failed: " + (b.stdout + b.stderr)[-2000:]
+            b = subprocess.run(["sh", str(VERIF / "ocaml" / "build.sh")], capture_output=True,
+                               text=True, timeout=900)
+            if b.returncode != 0:
+                return False, "ocaml build failed: " + (b.stdout + b.stderr)[-2000:]
         return ok, log
     finally:
         fcntl.flock(lock, fcntl.LOCK_UN)
